@@ -210,6 +210,28 @@ pub fn run(ctx: &mut Ctx) {
         *ctx.distribution.entry("car identifiers tried inside packets".into()).or_insert(0) = n;
         ctx.exhaustive_domains.push("every packet kind with a car field x {20 built-in names, 10 unrecognised built-in-style names, unknown, 8 mod ids} x both size modes".into());
     }
+    // an identifier is four bytes: fewer is an error, and four bytes handed over by the reader in pieces are still those four
+    {
+        for short in [&b""[..], &b"X"[..], &b"XF"[..], &b"XFG"[..], &[0u8, 0, 0][..], &[0x56u8, 0x34, 0x12][..]] {
+            ctx.oracle_eval("short-input");
+            if let Some(Ok(v)) = read_veh(short) {
+                ctx.violation("c13/short-input-accepted", "fewer than four bytes decode to a car identifier", &format!("veh {}", if short.is_empty() { "-".to_string() } else { hex(short) }), "an error", &veh_token(&v));
+            }
+        }
+        struct Dribble { inner: Cursor<Vec<u8>>, per: usize }
+        impl std::io::Read for Dribble { fn read(&mut self, buf: &mut [u8]) -> std::io::Result<usize> { let n = buf.len().min(self.per); self.inner.read(&mut buf[..n]) } }
+        impl std::io::Seek for Dribble { fn seek(&mut self, p: std::io::SeekFrom) -> std::io::Result<u64> { self.inner.seek(p) } }
+        for w in [*b"XFG\0", *b"FBM\0", [0, 0, 0, 0], [0x56, 0x34, 0x12, 0x00], [0x56, 0x34, 0x12, 0x80], *b"ABC\0"] {
+            for per in [1usize, 2, 3] {
+                ctx.oracle_eval("dribbling-reader");
+                let whole = read_veh(&w).map(|r| r.map(|v| veh_token(&v)));
+                let piecewise = guard(move || Vehicle::read_le(&mut Dribble { inner: Cursor::new(w.to_vec()), per }).map(|v| veh_token(&v)).map_err(|_| ()));
+                if piecewise != whole {
+                    ctx.violation("c13/segmented-read", "the same four bytes decode differently when the reader hands them over in pieces", &format!("veh {} (reader gives {} byte(s) per call)", hex(&w), per), &format!("{:?}", whole), &format!("{:?}", piecewise));
+                }
+            }
+        }
+    }
     // class representatives: boundaries of the three alphanumeric ranges, NUL, high bytes, letters of real names
     let reps: Vec<u8> = vec![
         0, 1, b' ', b'/', b'0', b'4', b'9', b':', b'@', b'A', b'B', b'F', b'G', b'L', b'M', b'O', b'R', b'T', b'U', b'X', b'Z', b'[',
